@@ -671,6 +671,41 @@ def _lookup_order_rule(ctx, program):
                   msg=f"name lookup of `{name}` ({label}) gives {sorted(map(repr, got))}, Python's scoping gives {want!r}", key=f"lookup {label}", node=fn, rel="eval.py")
 
 
+# Functions whose **kwargs carries a namespace chosen by the script (keyword arguments of a call, event data, service data).  Python binds a keyword to a
+# named parameter before it reaches **kwargs, so every parameter of such a function that is not itself a documented keyword must be positional-only.
+KWARGS_NAMESPACE = {
+    "eval.py::AstEval.call_func": "keyword arguments of every interpreted call",
+    "eval.py::EvalFunc.call": "keyword arguments of a call of an interpreted function",
+    "eval.py::EvalFuncVar.call": "keyword arguments of a call of an interpreted function",
+    "eval.py::EvalFuncVarClassInst.call": "keyword arguments of a call of an interpreted method",
+    "function.py::Function.event_fire": "the data of event.fire",
+    "function.py::Function.service_call": "the data of service.call",
+    "function.py::Function.task_add_done_callback": "keyword arguments for the done callback",
+    "trigger.py::TrigTime.init.user_task_add_done_callback": "keyword arguments for the done callback",
+    "trigger.py::TrigTime.init.user_task_create_factory.user_task_create": "keyword arguments for the function task.create runs",
+    "trigger.py::TrigTime.init.user_task_create_factory.user_task_create.func_call": "keyword arguments for the function task.create runs",
+    "trigger.py::TrigTime.user_task_executor": "keyword arguments for the function task.executor runs",
+    "trigger.py::TrigInfo.call_action.do_func_call": "the trigger's keyword arguments (event data included)",
+}
+
+
+def kwargs_namespace_rule(ctx, program, rid, only=None):
+    n = 0
+    for uid, what in KWARGS_NAMESPACE.items():
+        if only is not None and not any(uid.startswith(o) for o in only):
+            continue
+        f = program.func(uid)
+        n += 1
+        if f.args.kwarg is None:
+            ctx.ok(rid, uid, "no ** parameter: nothing to collide with")
+            continue
+        named = [a.arg for a in f.args.args] + [a.arg for a in f.args.kwonlyargs]
+        ctx.check(not named, rid, uid, f"own parameters are positional-only next to **{f.args.kwarg.arg}",
+                  msg=f"{uid}: **{f.args.kwarg.arg} carries {what}, but the function's own parameter(s) {named} can be bound by keyword: a script keyword / data key of that name "
+                  f"raises TypeError ('got multiple values for argument') instead of being delivered", key="kwargs namespace collision", node=f, rel=uid.split("::")[0])
+    return n
+
+
 def _init_wrap_rule(ctx, program):
     ctx.rule("R03.8", "the async __init__ wrapper attribute written by ast_classdef is the one read by call_func", floor=1)
     w = {n.value for n in body_walk(program.func("eval.py::AstEval.ast_classdef"))
@@ -806,6 +841,9 @@ def run(ctx):
     _cell_rule(ctx, program)
     _scope_order_rule(ctx, program)
     _lookup_order_rule(ctx, program)
+    ctx.rule("R03.17", "keyword arguments bind to the called function's parameters, whatever their names: the interpreter's own forwarding functions take their parameters "
+             "positional-only, so a script keyword called func, func_name, ast_ctx or self reaches the callee", floor=4)
+    kwargs_namespace_rule(ctx, program, "R03.17", only=("eval.py::",))
     _init_wrap_rule(ctx, program)
     _class_namespace_rule(ctx, program)
     _captured_cell_rule(ctx, program)
